@@ -4,8 +4,10 @@
     sess <bk> <Ls> <views> <F> <ch> <cut> <lost> <fuel>
       bk   : d | m                       (disk StoreChannel / MemoryChannel)
       Ls   : leader states separated by `;`, each
-             <serving>:<started>:<ids>:<cur>:<data>:<wopen>:<tail>   ids comma separated, `.` = none;
-             tail = hex bytes appended to the leader once a stream reader is open
+             <serving>:<started>:<ids>:<cur>:<data>:<wopen>:<tail>:<halt>   ids comma separated, `.` = none;
+             tail = hex bytes appended to the leader once a stream reader is open;
+             halt = `-` | <k>,<0|1>: the leader is stopped during this request's transfer after k
+             CONTINUE messages (1: its handler answered FAULT, 0: clean end of stream)
       views: per request of the session (handshake first) the indices a.b.c.d into Ls of the
              state read at the gate/self inspection, at StartPoint, at IsValidOffset, at
              NewReader; requests beyond the list read the last state listed
@@ -19,6 +21,10 @@
     m <CODE> id=<id> aof=<0|1> off=<int> size=<int> data=<hex>      per delivered message
     end <stage> <class>
     F <store>                                        (entries sorted by id)
+
+    react <Ls> <a.b.c.d> <rid> <roff>   →   first=<CODE|none> react=<nothing|syncer|all>
+      one request through the real SyncerCmd.Sync: ServiceReplica's first answer and whether
+      Sync stops this input's syncer (role error: hand-over) or all syncers (break error)
 -/
 import GunYu.Model.Replica
 namespace GunYu.Drive.C16
@@ -42,10 +48,14 @@ def parseIds (s : String) : List Id :=
 
 def parseLeader (s : String) : Option (Leader UInt8) :=
   match s.splitOn ":" with
-  | [sv, st, ids, cur, d, w, tl] => do
+  | [sv, st, ids, cur, d, w, tl, hl] => do
     let data ← parseData d
     let tail ← Hex.decode tl
-    pure ⟨sv == "1", st == "1", parseIds ids, idOf cur, data, w == "1", tail⟩
+    let halt ← if hl == "-" then some none else
+      match hl.splitOn "," with
+      | [k, f] => do pure (some (← k.toNat?, f == "1"))
+      | _ => none
+    pure ⟨sv == "1", st == "1", parseIds ids, idOf cur, data, w == "1", tail, halt⟩
   | _ => none
 
 def parseEntry (s : String) : Option (Id × Option (Data UInt8)) :=
@@ -77,7 +87,7 @@ def mkViews (ls : Array (Leader UInt8)) (vs : Array (View UInt8)) (n : Nat) : Vi
   | none =>
     match vs.back? with
     | some v => View.const v.l4
-    | none => View.const (ls[0]?.getD ⟨false, false, [], "", none, false, []⟩)
+    | none => View.const (ls[0]?.getD ⟨false, false, [], "", none, false, [], none⟩)
 
 def showData : Option (Data UInt8) → String
   | none => "-"
@@ -121,6 +131,18 @@ def handle : List String → Option (List String)
       let fuel ← fuel.toNat?
       let o := sessionV bk (mkViews ls vs) F ch cut lost fuel
       pure (o.trace.map showMsg ++ [s!"end {showStage o.stage} {showCls o.cls}", "F " ++ showStore bk o.store])
+    some (r.getD ["bad-op"])
+  | ["react", l, vw, rid, roff] =>
+    -- cmd/syncer_api.go Sync: first answer of ServiceReplica and what Sync does afterwards
+    let r : Option (List String) := do
+      let ls ← (l.splitOn ";").mapM parseLeader
+      let v ← parseView ls.toArray vw
+      let roff ← roff.toInt?
+      let rp := v.handle (idOf rid) roff []
+      let first := match rp.msgs with | [] => "none" | m :: _ => showCode m.code
+      let react := match syncReact rp.fin with
+        | .nothing => "nothing" | .stopSyncer => "syncer" | .stopAll => "all"
+      pure [s!"first={first} react={react}"]
     some (r.getD ["bad-op"])
   | _ => none
 
